@@ -7,9 +7,9 @@ CONSTANTS
   Timeout = TRUE
   Sse = TRUE
   Nested = TRUE
-  Faults = {"cut", "net", "vanish"}
-  DelModes = {"fail", "hang", "hold"}
-  Helds = TRUE
+  Faults = {"net", "vanish"}
+  DelModes = {"hang"}
+  Helds = FALSE
   Notifs = FALSE
   Cancels = TRUE
   AwaitHandlers = TRUE
